@@ -13,6 +13,8 @@ import MocVerif.Model.Params
 import MocVerif.Lemmas.CellRanges
 
 import MocVerif.Lemmas.CellMax
+import MocVerif.Lemmas.UniqIter
+import MocVerif.Lemmas.MaxUnique
 namespace Moc.C05
 
 /-- NUNIQ: `from_uniq_hpx ∘ uniq_hpx = id` for every depth (not only "depths < 8") and index. -/
@@ -298,5 +300,130 @@ theorem uniqGen_to_range (q : Qty) (hq : q = Params.hpx ∨ q = Params.time ∨ 
 example : (5 : Nat) < 12 * 4 ^ 0 ∧ (4 : Nat) ≤ 17 := by decide
 example : Params.hpx.dim = 1 ∨ Params.hpx.dim = 2 := by decide
 example : Params.time.shiftFromMax 64 3 < 64 ∧ 3 ≤ Params.time.maxDepth 64 := by decide
+
+/-! ### The range → NUNIQ iterator (`HpxToUniqIter`), as computed -/
+section NuniqIter
+open Moc.UniqIter
+
+/-- **The NUNIQ iterator covers exactly the MOC**: depth after depth (levels `J`, `J − 1`, …, 0 counted from
+    the deepest one, cells of `2^(g·level)` indices), the aligned ranges it emits cover every index of a canonical
+    `M` and nothing else; each one is a non-empty union of whole cells of its level. -/
+theorem nuniq_iter_cover (g J : Nat) (M : List Rng) (hc : Canon M) :
+    (∀ x, mem x M ↔ ∃ e ∈ run g J M, e.2.1 ≤ x ∧ x < e.2.2) ∧
+    (∀ e ∈ run g J M, e.2.1 < e.2.2 ∧ 2 ^ (g * e.1) ∣ e.2.1 ∧ 2 ^ (g * e.1) ∣ e.2.2) :=
+  ⟨run_cover g J M hc, run_aligned g J M⟩
+
+/-- **… and only with maximal cells**: whatever it emits below the top level, no cell one level up that
+    meets the emitted range lies inside `M` — the NUNIQ view never holds four siblings whose parent is in the
+    MOC.  This is the characterisation `cells_maximal` gives of the cell view: the two views agree on which
+    cells represent a MOC. -/
+theorem nuniq_iter_maximal (g J : Nat) (M : List Rng) (hc : Canon M) :
+    ∀ e ∈ run g J M, e.1 < J → ∀ p y, 2 ^ (g * (e.1 + 1)) ∣ p → p ≤ y ∧ y < p + 2 ^ (g * (e.1 + 1)) →
+      e.2.1 ≤ y ∧ y < e.2.2 → ¬ BlockIn (g * (e.1 + 1)) p M :=
+  run_maximal g J M hc
+
+/-- Non-vacuity: a canonical list to which both theorems apply (a whole level-1 cell and one more index; the
+    driver evaluates `run` on it: `[(1, (12, 16)), (0, (16, 17))]`). -/
+example : Canon [((12 : Nat), (17 : Nat))] := by simp [Canon, CanonFrom]
+
+end NuniqIter
+
+end Moc.C05
+
+/-! ### The NUNIQ iterator and the cell view produce the same cells -/
+namespace Moc.C05
+open Moc Moc.UniqIter
+
+theorem down_shl (g j c : Nat) : down (g * (j + 1)) (c <<< (g * j)) = (c >>> g) <<< (g * (j + 1)) := by
+  unfold down
+  simp only [Nat.shiftRight_eq_div_pow, Nat.shiftLeft_eq]
+  have e : 2 ^ (g * (j + 1)) = 2 ^ (g * j) * 2 ^ g := by rw [Nat.mul_add, Nat.mul_one, Nat.pow_add]
+  rw [e, ← Nat.div_div_eq_div_mul, Nat.mul_div_cancel _ (Nat.two_pow_pos (g * j))]
+
+/-- The block of a cell of the cell view: aligned, inside the MOC, maximal. -/
+theorem cell_block (q : Qty) (hq : q.dim = 1 ∨ q.dim = 2) (w d : Nat) (hd : d ≤ q.maxDepth w)
+    (hw : q.dim * q.maxDepth w + q.dim ≤ w) (M : List Rng) (hv : Valid q w d M) (c : Cell) (hc : c ∈ cellsOf q w d M) :
+    c.1 ≤ q.maxDepth w ∧
+    2 ^ (q.dim * (tileOf q w c).1) ∣ (tileOf q w c).2 ∧
+    BlockIn (q.dim * (tileOf q w c).1) (tileOf q w c).2 M ∧
+    MaximalIn q.dim (q.maxDepth w) (tileOf q w c).1 (tileOf q w c).2 M ∧
+    (rangeOfCell q w c).1 = (tileOf q w c).2 ∧ (rangeOfCell q w c).2 = (tileOf q w c).2 + 2 ^ (q.dim * (tileOf q w c).1) := by
+  have hal := Moc.C05.aligned_of_valid q w d M hv
+  -- depth bound, through the tiles of the range the cell comes from
+  have hc' := hc
+  unfold cellsOf at hc'
+  obtain ⟨r, hr, hcr⟩ := List.mem_flatMap.1 hc'
+  obtain ⟨_, g2, _, _⟩ := Moc.C05.canon_gap M 0 hv.1 r hr
+  have har := hal r hr
+  have hts := cellsOfRange_tiles q hq w d hd (r.2 - r.1) r.1 r.2 (Nat.le_refl _) (Nat.le_of_lt g2) har.1 har.2
+  have hdep : c.1 ≤ q.maxDepth w := Nat.le_trans (tiles_depth q w d _ _ _ hts c hcr) hd
+  have hfst : (tileOf q w c).1 = q.maxDepth w - c.1 := rfl
+  have hsnd : (tileOf q w c).2 = c.2 <<< q.shiftFromMax w c.1 := rfl
+  have hsh : q.shiftFromMax w c.1 = q.dim * (q.maxDepth w - c.1) := rfl
+  have hr1 : (rangeOfCell q w c).1 = (tileOf q w c).2 := rfl
+  have hr2 : (rangeOfCell q w c).2 = (tileOf q w c).2 + 2 ^ (q.dim * (tileOf q w c).1) := by
+    simp only [rangeOfCell, hsnd, hfst, hsh, Nat.shiftLeft_eq, Nat.add_mul, Nat.one_mul]
+  refine ⟨hdep, ?_, ?_, ?_, hr1, hr2⟩
+  · rw [hsnd, hfst, hsh, Nat.shiftLeft_eq]; exact Nat.dvd_mul_left _ _
+  · intro x hx1 hx2
+    apply (Moc.C05.cells_cover q hq w d hd M hv x).1
+    rw [mem_iff_exists]
+    exact ⟨rangeOfCell q w c, List.mem_map.2 ⟨c, hc, rfl⟩, by rw [hr1]; exact hx1, by rw [hr2]; exact hx2⟩
+  · intro hlt
+    have hpos : 0 < c.1 := by rw [hfst] at hlt; omega
+    obtain ⟨x, hx1, hx2, hx3⟩ := Moc.C05.cells_maximal q hq w d hd hw M hv c hc hpos
+    intro hblk
+    apply hx3
+    -- the parent range of the cell is the parent block of its tile
+    have hj : q.maxDepth w - (c.1 - 1) = (q.maxDepth w - c.1) + 1 := by omega
+    have hshp : q.shiftFromMax w (c.1 - 1) = q.dim * ((q.maxDepth w - c.1) + 1) := by
+      unfold Qty.shiftFromMax; rw [hj]
+    have hps : parentStart q.dim (tileOf q w c).1 (tileOf q w c).2 = (rangeOfCell q w (Moc.C05.parentCell q c)).1 := by
+      unfold parentStart
+      rw [hsnd, hfst, hsh, down_shl]
+      simp only [rangeOfCell, Moc.C05.parentCell, hshp]
+    have hpe : (rangeOfCell q w (Moc.C05.parentCell q c)).2
+        = (rangeOfCell q w (Moc.C05.parentCell q c)).1 + 2 ^ (q.dim * ((tileOf q w c).1 + 1)) := by
+      simp only [rangeOfCell, Moc.C05.parentCell, hshp, hfst, Nat.shiftLeft_eq, Nat.add_mul, Nat.one_mul]
+    exact hblk x (by rw [hps]; exact hx1) (by rw [hps, ← hpe]; exact hx2)
+
+/-- **The NUNIQ iterator and the cell view produce the same cells**: for every valid MOC, an aligned cell
+    is emitted by the depth-by-depth iterator if and only if it is a cell of the cell view. -/
+theorem emitted_iff_cell (q : Qty) (hq : q.dim = 1 ∨ q.dim = 2) (w d : Nat) (hd : d ≤ q.maxDepth w)
+    (hw : q.dim * q.maxDepth w + q.dim ≤ w) (M : List Rng) (hv : Valid q w d M) (j p : Nat) :
+    Emitted q.dim (q.maxDepth w) M j p ↔ ∃ c ∈ cellsOf q w d M, tileOf q w c = (j, p) := by
+  constructor
+  · intro hE
+    have hin := emitted_inside _ _ M hv.1 j p hE
+    have hmx := emitted_maximal _ _ M hv.1 j p hE
+    have hlv := emitted_level _ _ M j p hE
+    obtain ⟨e, _, _, hdv, _, _⟩ := id hE
+    have hpos := Nat.two_pow_pos (q.dim * j)
+    have hpM : mem p M := hin p (Nat.le_refl _) (by omega)
+    have := (Moc.C05.cells_cover q hq w d hd M hv p).2 hpM
+    rw [mem_iff_exists] at this
+    obtain ⟨rg, hrg, h1, h2⟩ := this
+    obtain ⟨c, hc, rfl⟩ := List.mem_map.1 hrg
+    obtain ⟨b1, b2, b3, b4, b5, b6⟩ := cell_block q hq w d hd hw M hv c hc
+    have hu := maximal_unique q.dim (q.maxDepth w) M j p (tileOf q w c).1 (tileOf q w c).2 p hdv b2 hlv
+      (by show q.maxDepth w - c.1 ≤ q.maxDepth w; omega) hin b3 hmx b4 ⟨Nat.le_refl _, by omega⟩
+      ⟨by rw [← b5]; exact h1, by rw [← b6]; exact h2⟩
+    exact ⟨c, hc, Prod.ext hu.1.symm hu.2.symm⟩
+  · rintro ⟨c, hc, hcp⟩
+    obtain ⟨b1, b2, b3, b4, b5, b6⟩ := cell_block q hq w d hd hw M hv c hc
+    rw [hcp] at b2 b3 b4 b5 b6
+    simp only [] at b2 b3 b4
+    have hpos := Nat.two_pow_pos (q.dim * j)
+    have hpM : mem p M := b3 p (Nat.le_refl _) (by omega)
+    obtain ⟨j', p', hE, h1, h2⟩ := emitted_covers q.dim (q.maxDepth w) M hv.1 p hpM
+    obtain ⟨e, _, _, hdv, _, _⟩ := id hE
+    have hjJ : j ≤ q.maxDepth w := by
+      have : (tileOf q w c).1 = j := by rw [hcp]
+      rw [← this]; show q.maxDepth w - c.1 ≤ q.maxDepth w; omega
+    have hu := maximal_unique q.dim (q.maxDepth w) M j' p' j p p hdv b2 (emitted_level _ _ M j' p' hE) hjJ
+      (emitted_inside _ _ M hv.1 j' p' hE) b3 (emitted_maximal _ _ M hv.1 j' p' hE) b4 ⟨h1, h2⟩ ⟨Nat.le_refl _, by omega⟩
+    rw [← hu.1, ← hu.2]
+    exact hE
+
 
 end Moc.C05
